@@ -17,7 +17,7 @@ func main() {
 	}
 	b := tv.BoundsFor(run.Tier)
 	if run.Fork(16) {
-		tv.Conformance(run)
+		tv.Conformance(run, false)
 		run.Set("rule", "programs = enumerated query texts that translate both optimised and unoptimised; each applicable configuration is evaluated on every graph of the query's sliced domain and compared with the unoptimised SQL; distinct_nontrivial = programs with a non-empty result on some graph")
 		run.Set("bounds", map[string]any{"max_features": int64(b.Features), "max_nodes": int64(b.MaxNodes), "max_edges": int64(b.MaxEdges), "graphs_per_query_budget": int64(b.Budget)})
 		run.Set("configurations", tv.ConfigNames())
